@@ -382,7 +382,7 @@ def compile(object, return_code=False):
             # ################## operator ##################
             operands = [_get_expression_for(i) for i in origin.operands]
             if len(operands) == 1:
-                to_code = lambda value_to_code: f"{origin.operator}({value_to_code(operands[0])})"
+                to_code = lambda value_to_code: f"({origin.operator}({value_to_code(operands[0])}))"
             elif len(operands) == 2:
                 to_code = lambda value_to_code: f"({value_to_code(operands[0])} {origin.operator} {value_to_code(operands[1])})"
             else:
